@@ -11,6 +11,10 @@ func gScenario() (gBlock, []gBlock, gAuthz) {
 	}
 	var z gAuthz
 	z.gBlock = gGenBlock("az", vParam("azFacts"), vParam("azRule"), vParam("azCheck"))
+	if c, ok := gGenCheck("az.c2", vParamOpt("azCheck2")); ok {
+		// a second check of the authorizer: each check counts on its own
+		z.checks = append(z.checks, c)
+	}
 	z.policies = gGenPolicies("pol", vParam("policies"), vParam("polMode"))
 	return authority, blocks, z
 }
